@@ -763,8 +763,7 @@ NUM_CLS = ["dec", "neg", "hex", "inf", "ninf", "nan", "e999", "oor", "empty",
            # huge magnitudes: integer lexemes int() accepts (decimal: below
            # the 4300 digit limit of int(); hex: no limit) but no float /
            # CIM integer can hold; mantissa / exponent of many digits
-           "big", "negbig", "hexbig", "hexlong", "fracbig", "expbig",
-           "expneg"]
+           "big", "hexbig", "hexlong", "fracbig", "expneg"]
 
 
 def num_text(ty, cls, rng):
@@ -805,13 +804,11 @@ def num_text(ty, cls, rng):
         return rng.choice(["9" * 5000, "1" + "0" * 4400, "0" * 4500 + "1"])
     if cls == "junk":
         return rng.choice(["5 x", "5;", "1,000", "1 2", "5\u00a0"])
-    if cls in ("big", "negbig"):
+    if cls == "big":
         n = rng.choice([310, 400, 1000, 4299])
         t = rng.choice(["9" * n, "1" + "0" * (n - 1),
                         "".join(rng.choice("123456789") for _ in range(n))])
-        if cls == "negbig":
-            return "-" + t
-        return rng.choice(["", "", "+", " "]) + t
+        return rng.choice(["", "", "-", "-", "+", " "]) + t
     if cls in ("hexbig", "hexlong"):
         # hexbig: above every float, decimal form below 4300 digits;
         # hexlong: decimal form above the 4300 digit limit of str(int)
@@ -819,10 +816,11 @@ def num_text(ty, cls, rng):
         return rng.choice(["0x", "0X", "-0x", "+0x"]) + \
             rng.choice(["f" * n, "1" + "0" * (n - 1), "7F" * (n // 2)])
     if cls == "fracbig":
-        n = rng.choice([310, 400, 5000])
-        return rng.choice(["9" * n + ".0", "9" * n + "e0", "1" + "0" * n + ".",
-                           "-" + "9" * n + ".5", "9." + "9" * n + "e400"])
-    if cls == "expbig":
+        if rng.random() < 0.5:
+            n = rng.choice([310, 400, 5000])
+            return rng.choice(["9" * n + ".0", "9" * n + "e0",
+                               "1" + "0" * n + ".", "-" + "9" * n + ".5",
+                               "9." + "9" * n + "e400"])
         return rng.choice(["1e", "1E+", "-2.5e", "9E"]) + \
             rng.choice(["400", "9" * 30, "1" + "0" * 400, "9" * 5000])
     if cls == "expneg":
@@ -2062,7 +2060,7 @@ def v_deep(ctx, d):
 @kind("o_irv", "optype", clss=IRV_KINDS)
 def o_irv(ctx, d):
     r = ctx.resp()
-    if r.name != "IMETHODRESPONSE":
+    if r.name not in ("IMETHODRESPONSE", "EXPMETHODRESPONSE"):
         raise NotRenderable("no IRETURNVALUE in this response kind")
     objs = [ctx.gen.irv_elem(d["cls"]) for _ in range(ctx.rng.choice([1, 1, 2]))]
     if d["cls"] in ("VALUE.ARRAY", "VALUE.REFERENCE"):
@@ -2491,7 +2489,7 @@ def defect_ok(shape, d, has_error=False):
             return False
     elif d["cls"] != "":
         return False
-    if d["k"] in ("o_irv", "o_struct") and shape in ("method", "export"):
+    if d["k"] in ("o_irv", "o_struct") and shape == "method":
         return False
     if info["ok"] is not None and not info["ok"](d):
         return False
